@@ -6,7 +6,7 @@ From Coq Require Import List ZArith NArith Bool Arith String Lia.
 Import ListNotations.
 From DD Require Import Base.PyStr Base.Value Diff.Tree Diff.DiffModel Options.OptModel
   Options.OptProofsBase Options.OptProofsAtoms Options.OptProofsKeys Options.OptProofsLists
-  Options.OptProofsAlt Options.OptProofsSafe.
+  Options.OptProofsAlt Options.OptProofsSafe Options.OptProofsMono Options.OptProofsRun.
 Local Open Scope string_scope.
 
 (* ---- the full-strength relation: a positional copy, atoms altered by altA anywhere ---- *)
@@ -106,6 +106,29 @@ Proof.
   - eexists. split; [vm_compute; reflexivity|cbn; discriminate].
 Qed.
 
+(* exclude_types in the DEFAULT list mode: a list in which only ints changed reports a str as added
+   ([1,'x',2,1] vs [2,'x',1,3], exclude_types=[int], with the opcodes difflib returns for this pair): the difflib
+   pass leaves ONE report after the excluded ones are dropped, and one report is not enough for the code to try
+   the pairwise pass (which reports nothing) *)
+Definition ops_w (_ : path) (_ _ : list value) : list opcode :=
+  [mkOp OInsert 0 0 0 2; mkOp OEqual 0 1 2 3; mkOp OReplace 1 4 3 4].
+Definition lw1 : list value := [vi 1; VAtom (S "x"); vi 2; vi 1].
+Definition lw2 : list value := [vi 2; VAtom (S "x"); vi 1; vi 3].
+Theorem alt_excl_default_list_refuted :
+  alt_full (Fexcl [TInt]) cdef (VList lw1) (VList lw2) /\
+  tiles (ops_w [] lw1 lw2) 0 0 (List.length lw1) (List.length lw2) = true /\
+  run_optF ud0 ops_w czip (Fexcl [TInt]) (VList lw1) (VList lw2) = Ok ([], []) /\
+  exists r, run_optF ud0 ops_w cdef (Fexcl [TInt]) (VList lw1) (VList lw2) = Ok r /\ fst r <> [].
+Proof.
+  split; [|split; [reflexivity|split; [reflexivity|]]].
+  - apply af_list. unfold lw1, lw2.
+    constructor; [apply af_excl; reflexivity|].
+    constructor; [apply af_atom; reflexivity|].
+    constructor; [apply af_excl; reflexivity|].
+    constructor; [apply af_excl; reflexivity|constructor].
+  - eexists. split; [vm_compute; reflexivity|cbn; discriminate].
+Qed.
+
 (* ignore_string_case does not lower-case bytes dict keys *)
 Theorem alt_bytes_key_case_refuted :
   exists a b, alt_full Fcase cdef a b /\ exists r, run cdef Fcase a b = Ok r /\ fst r <> [].
@@ -196,3 +219,36 @@ Qed.
 
 (* safe inputs exist (third clause) *)
 Example safe_ex : safe Fmix ex2 = true. Proof. reflexivity. Qed.
+
+(* ---- the hypotheses of the monotone theorem are satisfiable together ---- *)
+Definition KUx (k : atom) : Prop := In k [S "a"; S "B"; AInt 3].
+Definition SUx (x : atom) : Prop := In x [AInt 1; S "m"].
+Definition m1 : value := VDict [(S "a", VList [vi 1; VSet [AInt 1; S "m"]]); (AInt 3, VAtom (S "x")); (S "B", VTuple [])].
+Definition m2 : value := VDict [(S "B", VTuple []); (AInt 3, VAtom (S "x")); (S "a", VList [vi 1; VSet [S "m"; AInt 1]])].
+
+Example mono_keys_typed : forall k k', KUx k -> KUx k' -> py_eq k k' = true -> atom_ty k = atom_ty k'.
+Proof.
+  intros k k' H1 H2 E. unfold KUx in *. cbn [In] in *.
+  repeat match goal with K : _ \/ _ |- _ => destruct K as [K|K] end; subst; try contradiction; try reflexivity;
+    vm_compute in E; discriminate.
+Qed.
+Example mono_sets_inj : forall x y, SUx x -> SUx y -> hatomF no_opts x = hatomF no_opts y -> x = y.
+Proof.
+  intros x y H1 H2 E. unfold SUx in *. cbn [In] in *.
+  repeat match goal with K : _ \/ _ |- _ => destruct K as [K|K] end; subst; try contradiction; try reflexivity;
+    vm_compute in E; discriminate.
+Qed.
+Example mono_instance : run czip Fmix m1 m2 = Ok ([], []).
+Proof.
+  apply (monotone_run Fmix czip ud0 ops0) with (KU := KUx) (SU := SUx) (r := []).
+  - cbn. lia.
+  - left. reflexivity.
+  - reflexivity.
+  - intros _. exact mono_keys_typed.
+  - exact mono_sets_inj.
+  - reflexivity.
+  - reflexivity.
+  - reflexivity.
+  - cbn. unfold KUx, SUx. cbn. repeat split; auto 10.
+  - cbn. unfold KUx, SUx. cbn. repeat split; auto 10.
+Qed.
